@@ -16,6 +16,7 @@ import XzVerif.Lemmas.C16
 import XzVerif.Lemmas.XzStd
 import XzVerif.Lemmas.XzConcatFlip
 import XzVerif.Lemmas.CrcBurst
+import XzVerif.Lemmas.XzDamage
 import XzVerif.Props.C16
 
 namespace XzVerif.C05
@@ -118,28 +119,29 @@ theorem payload_damage_needs_collision (E : Env) (check hs : Nat) (h : BlockHead
   · exact Or.inl heq
   · exact Or.inr ⟨heq, by rw [← k2, ← k1]⟩
 
-/-- The whole-file form of the statement: `b'` differs from an accepted `b` only inside Compressed Data of Blocks, `b'` is
-    accepted with different output ⇒ some Block exhibits a Check collision.  Proved above per Block for headers that carry
-    the Compressed Size.  NOT A THEOREM in the form written below (kept as the record of the intended claim); a provable
-    whole-file form needs three more hypotheses, found while trying to prove it:
-    (1) `mask` must be tied to the decoder's walk over `b` (below it is an arbitrary list, so `mask = all true` makes `b'`
-        arbitrary) and the Check must be a supported one other than None (otherwise no collision can be exhibited);
-    (2) both decodes must consume the whole file (`consumed = length`, which is what `xz -d` demands, or LZMA_CONCATENATED):
-        without LZMA_CONCATENATED the library ignores what follows the Stream, so a Block whose header has no Compressed Size
-        can be overwritten IN PLACE by a shorter payload followed by its honest Check, an Index and a Stream Footer — all
-        inside the damaged region; the decoder then answers LZMA_STREAM_END with other data and `total_in < file size`, and no
-        collision is involved.  With (2) the unchanged footer pins the Index, and the unchanged Index pins every Block
-        boundary of `b'` to that of `b`, which reduces the claim to the per-Block theorem;
-    (3) for that last step the Records must be recoverable from the Index bytes (`indexEncode` injective on the decoded
-        Blocks), which needs the `lzma_index_hash_append` limits that `BlocksRun` does not record yet. -/
-def payload_damage_needs_collision_statement : Prop :=
-  ∀ (E : Env) (fl : Flags) (b b' : List UInt8) (cap : Nat) (mask : List Bool),
-    PayloadLocal E → fl.ignoreCheck = false → b.length = b'.length → mask.length = b.length →
-    -- `mask[i] = true` exactly on the Compressed Data bytes of the Blocks of `b`; outside of it the files agree
-    (∀ i, mask.getD i false = false → b.getD i 0 = b'.getD i 0) →
-    (xzDecode E fl b cap).ret = .streamEnd → (xzDecode E fl b' cap).ret = .streamEnd →
-    (xzDecode E fl b' cap).out ≠ (xzDecode E fl b cap).out →
-    ∃ (check : Nat) (o o' : List UInt8), o ≠ o' ∧ E.check check o = E.check check o'
+/-- **payload_damage_needs_collision, whole file** (replaces the former `payload_damage_needs_collision_statement`, which was
+    false as written: its mask was unconstrained, and without "the Stream is the whole file" a Block whose header has no
+    Compressed Size can be overwritten IN PLACE by a shorter payload followed by its honest Check, an Index and a Stream Footer;
+    the decoder then answers LZMA_STREAM_END with other data and `total_in < file size`, no collision involved).
+
+    Corrected hypotheses:
+    * `FileDamage E fl b b' cap hdr out` (Lemmas/XzDamage.lean): `b` is one declaratively valid Stream that fills the whole file
+      and decodes to `out`; `b'` has the same Stream Header and equals `b` except that the Compressed Data of each Block of `b`
+      is replaced by arbitrary bytes of the same length (`PayloadDamage` follows the parse of `b`: Block Header, Block Padding,
+      Check of every Block and everything from the Index on are the same bytes);
+    * no LZMA_CONCATENATED, no LZMA_IGNORE_CHECK, the Check is a supported one other than None;
+    * `b'` is accepted and the decoder consumed all of it (`consumed = length`: what `xz -d` demands).
+    Then `b` is accepted with output `out`, and `b'` decodes to the same `out` — or two different byte strings have the same Check
+    value.  (The unchanged footer pins the Index, the Index bytes determine the Records (`indexEncode_injective`), the Records pin
+    every Block boundary, and each unchanged Check field relates the two outputs of its Block.) -/
+theorem payload_damage_needs_collision_whole (E : Env) (hloc : PayloadLocal E) (hbd : PayloadBounded E) (fl : Flags)
+    (hnc : fl.concatenated = false) (hign : fl.ignoreCheck = false) (b b' : List UInt8) (cap : Nat)
+    (hdr : StreamFlags) (out : List UInt8) (hdmg : FileDamage E fl b b' cap hdr out)
+    (hck : hdr.check ≠ 0) (hsup : E.checkSupported hdr.check = true)
+    (hr' : (xzDecode E fl b' cap).ret = .streamEnd) (hall' : (xzDecode E fl b' cap).consumed = b'.length) :
+    ((xzDecode E fl b cap).ret = .streamEnd ∧ (xzDecode E fl b cap).out = out ∧ (xzDecode E fl b cap).consumed = b.length)
+    ∧ ((xzDecode E fl b' cap).out = out ∨ ∃ o o' : List UInt8, o ≠ o' ∧ E.check hdr.check o = E.check hdr.check o') :=
+  payload_damage_whole E hloc hbd fl hnc hign b b' cap hdr out hdmg hck hsup hr' hall'
 
 /-! ## Single-bit damage outside Compressed Data -/
 
@@ -353,16 +355,33 @@ theorem truncation_is_never_stream_end_std (fl : Flags) (hnc : fl.concatenated =
     (xzDecode XzEnv.stdEnv fl (b.take n) cap).ret ≠ .streamEnd ∧ (xzDecode XzEnv.stdEnv fl (b.take n) cap).ret ≠ .ok :=
   truncation_is_never_stream_end XzEnv.stdEnv payload_local_std payload_bounded_std fl hnc b cap hr n hn
 
-/-- `block_tail_bitflip_rejected` for the concrete decoder (Block Padding and Check field). -/
+/-- `payload_damage_needs_collision_whole` for the concrete decoder (CRC32, CRC64 or SHA-256). -/
+theorem payload_damage_needs_collision_whole_std (fl : Flags) (hnc : fl.concatenated = false) (hign : fl.ignoreCheck = false)
+    (b b' : List UInt8) (cap : Nat) (hdr : StreamFlags) (out : List UInt8)
+    (hdmg : FileDamage XzEnv.stdEnv fl b b' cap hdr out) (hck : hdr.check ≠ 0)
+    (hsup : XzEnv.stdEnv.checkSupported hdr.check = true)
+    (hr' : (xzDecode XzEnv.stdEnv fl b' cap).ret = .streamEnd)
+    (hall' : (xzDecode XzEnv.stdEnv fl b' cap).consumed = b'.length) :
+    ((xzDecode XzEnv.stdEnv fl b cap).ret = .streamEnd ∧ (xzDecode XzEnv.stdEnv fl b cap).out = out
+        ∧ (xzDecode XzEnv.stdEnv fl b cap).consumed = b.length)
+    ∧ ((xzDecode XzEnv.stdEnv fl b' cap).out = out
+        ∨ ∃ o o' : List UInt8, o ≠ o' ∧ XzEnv.stdEnv.check hdr.check o = XzEnv.stdEnv.check hdr.check o') :=
+  payload_damage_needs_collision_whole XzEnv.stdEnv payload_local_std payload_bounded_std fl hnc hign b b' cap hdr out hdmg hck hsup
+    hr' hall'
+
+/-- `block_tail_bitflip_rejected` for the concrete decoder (Block Padding and Check field); the side condition `hwf` of the
+    parametric theorem follows from `payload_bounded_std`. -/
 theorem block_tail_bitflip_rejected_std (check hs : Nat) (h : BlockHeader)
     (inp : List UInt8) (cap : Nat) (hb : (blockDecode XzEnv.stdEnv check false hs h inp cap).ret = .streamEnd)
     (hsup : check ≠ 0 → XzEnv.stdEnv.checkSupported check = true)
-    (hwf : (blockDecode XzEnv.stdEnv check false hs h inp cap).compressed
-      ≤ (inp.take (min inp.length (compressedLimit hs check h.compressedSize))).length)
     (i : Nat) (hlo : 8 * (blockDecode XzEnv.stdEnv check false hs h inp cap).compressed ≤ i)
     (hhi : i < 8 * (blockDecode XzEnv.stdEnv check false hs h inp cap).consumed) :
-    (blockDecode XzEnv.stdEnv check false hs h (flipBit inp i) cap).ret ≠ .streamEnd :=
-  block_tail_bitflip_rejected XzEnv.stdEnv payload_local_std check hs h inp cap hb hsup hwf i hlo hhi
+    (blockDecode XzEnv.stdEnv check false hs h (flipBit inp i) cap).ret ≠ .streamEnd := by
+  have F := blockDecode_streamEnd XzEnv.stdEnv check false hs h inp cap _ rfl hb
+  have hwf : (blockDecode XzEnv.stdEnv check false hs h inp cap).compressed
+      ≤ (inp.take (min inp.length (compressedLimit hs check h.compressedSize))).length := by
+    rw [F.compressed_eq]; unfold payloadCall; exact payload_bounded_std _ _ _
+  exact block_tail_bitflip_rejected XzEnv.stdEnv payload_local_std check hs h inp cap hb hsup hwf i hlo hhi
 
 /-- `index_footer_bitflip_rejected` for the concrete decoder (Index and Stream Footer of the whole file). -/
 theorem index_footer_bitflip_rejected_std (fl : Flags) (hnc : fl.concatenated = false) (b : List UInt8) (cap : Nat)
@@ -615,6 +634,42 @@ example : XzBit toyEnv flConcat true toyConcat UNLIMITED (8 * (52 + 4) + 50) := 
 /-- … and the decoder indeed rejects all three (as `header_bitflip_rejected_partial` says it must) -/
 example : [427, 416, 8 * (52 + 4) + 50].map (fun i => (xzDecode toyEnv flConcat (flipBit toyConcat i)).ret)
     = [.dataError, .dataError, .dataError] := by decide +kernel
+
+/-! ### whole-file payload damage: the hypothesis `FileDamage` is inhabited -/
+
+/-- the toy file with the four bytes of its Compressed Data overwritten -/
+def toyXzDamaged : List UInt8 := toyXz.take 24 ++ [0x03, 0x78, 0x79, 0x7a] ++ toyXz.drop 28
+
+example : FileDamage toyEnv {} toyXz toyXzDamaged UNLIMITED ⟨0, 1⟩ [0x61, 0x62, 0x63] := by
+  refine ⟨20, [⟨20, 3⟩], indexAndFooter ⟨0, 1⟩ [⟨20, 3⟩] (toyXz.drop 32), by decide, by decide +kernel, by decide +kernel,
+    ?_, ?_, by decide +kernel⟩
+  · exact PayloadDamage.block (E := toyEnv) (fl := {}) (hdr := ⟨0, 1⟩) [] (toyXz.drop 12) (toyXzDamaged.drop 12) UNLIMITED
+      0x02 [0, 33, 1, 0, 0, 0, 0, 55, 39, 151, 214] { compressedSize := none, uncompressedSize := none, filters := [⟨0x21, [0]⟩] }
+      [3, 97, 98, 99] [97, 98, 99] [] [194, 65, 36, 53] (toyXz.drop 32) [] 0 [⟨20, 3⟩] [3, 0x78, 0x79, 0x7a] (toyXz.drop 32)
+      (by decide +kernel) (by decide) (by decide +kernel) ⟨1, by decide +kernel⟩
+      ⟨(by decide +kernel), (by intro x hx; cases hx), (by intro u hu; cases hu), (by decide), (by decide),
+        (by intro _ _ _; decide +kernel)⟩
+      ⟨(by decide), (by decide), (by decide), (by unfold HashLimits; decide +kernel)⟩ (by decide) (by decide +kernel)
+      (PayloadDamage.done _ _ _)
+  · exact indexAndFooter_streamEnd ⟨0, 1⟩ [⟨20, 3⟩] (toyXz.drop 32) _ rfl (by decide +kernel)
+
+/-- (the damaged toy file is rejected — its CRC32 no longer matches — so here the theorem's conclusion holds vacuously; with a
+    32-bit Check there ARE accepted damaged files, each of them a collision) -/
+example : (xzDecode toyEnv {} toyXzDamaged).ret = .dataError := by decide +kernel
+
+/-! ### the concrete decoder model on tests/files/good-1-check-crc32.xz -/
+
+def good1 : List UInt8 :=
+  [253, 55, 122, 88, 90, 0, 0, 1, 105, 34, 222, 54, 2, 0, 33, 1, 8, 0, 0, 0, 216, 15, 35, 19, 1, 0, 5, 72, 101, 108, 108, 111,
+   10, 2, 0, 6, 87, 111, 114, 108, 100, 33, 10, 0, 67, 163, 162, 21, 0, 1, 36, 13, 48, 40, 223, 175, 144, 66, 153, 13, 1, 0, 0,
+   0, 0, 1, 89, 90]
+
+/-- accepted by `stdEnv` (real LZMA2 model, CRC32 model) — the hypothesis of every `_std` theorem is satisfiable — … -/
+example : (xzDecode XzEnv.stdEnv {} good1).ret = .streamEnd ∧ (xzDecode XzEnv.stdEnv {} good1).consumed = 68 := by decide +kernel
+/-- … a flip in the Block Header (bit 150), in the Check (bit 370), in the Index (bit 400) is rejected, every truncation too -/
+example : [150, 370, 400].map (fun i => (xzDecode XzEnv.stdEnv {} (flipBit good1 i)).ret) = [.dataError, .dataError, .dataError] := by
+  decide +kernel
+example : (List.range 68).all (fun n => (xzDecode XzEnv.stdEnv {} (good1.take n)).ret == .bufError) = true := by decide +kernel
 
 -- the toy payload decoder satisfies `PayloadBounded` (a hypothesis of `prefix_free`)
 example : PayloadBounded toyEnv := by
